@@ -11,93 +11,55 @@
 -/
 import MxModel.Gen.KGov
 import MxModel.Lemmas.KernelTags
+import MxModel.Lemmas.KTactic
+import MxModel.Lemmas.GovSpec
 
 namespace Mx.KGov
 open Mx Mx.Gen Mx.Gov
 
 /-- source `ProposalVotes::get_total_votes` = model `totalVotes` -/
 theorem get_total_votes_eq (p : Proposal) :
-    KGov.get_total_votes p.abstain p.veto p.down p.up = some p.totalVotes := rfl
+    KGov.get_total_votes p.abstain p.veto p.down p.up = some p.totalVotes := by
+  k_defs [KGov.get_total_votes, Proposal.totalVotes]
+  try k_solve
 
 /-- source `vote_down_with_veto` decides the model's `vetoed`: veto votes strictly above a third
     (rounded down) of all votes; never aborts -/
 theorem vote_down_with_veto_eq (p : Proposal) (id : Nat) :
     KGov.vote_down_with_veto p.abstain p.veto p.down id p.up = some (decide p.vetoed) := by
-  have h3 : ¬ (3 = 0) := by omega
-  simp only [KGov.vote_down_with_veto, KGov.get_total_votes, div?, if_neg h3, gt_iff_lt,
-    Option.bind_eq_bind, Option.bind_some, Option.pure_def, Option.some.injEq, decide_eq_decide]
-  exact Iff.rfl
+  k_defs [KGov.vote_down_with_veto, KGov.get_total_votes, Proposal.vetoed, Proposal.totalVotes]
+  try k_solve
 
 /-- source `vote_reached` decides the model's `voteReached`: not vetoed and up votes strictly above
     half (rounded down) of all votes; never aborts -/
 theorem vote_reached_eq (p : Proposal) (id : Nat) :
     KGov.vote_reached p.abstain p.veto p.down id p.up = some (decide p.voteReached) := by
-  have h3 : ¬ (3 = 0) := by omega
-  have h2 : ¬ (2 = 0) := by omega
-  simp only [KGov.vote_reached, KGov.get_total_votes, div?, if_neg h3, if_neg h2, gt_iff_lt,
-    Option.bind_eq_bind, Option.bind_some, Option.pure_def]
-  by_cases hv : p.vetoed
-  · have hv' : (p.up + p.down + p.veto + p.abstain) / 3 < p.veto := hv
-    have hn : ¬ p.voteReached := fun c => c.1 hv
-    simp only [if_pos hv', hn, decide_false]
-  · have hv' : ¬ (p.up + p.down + p.veto + p.abstain) / 3 < p.veto := hv
-    simp only [if_neg hv', Option.some.injEq, decide_eq_decide]
-    simp only [Proposal.voteReached, Proposal.totalVotes]
-    exact ⟨fun h => ⟨hv, h⟩, fun h => h.2⟩
+  k_defs [KGov.vote_reached, KGov.get_total_votes, Proposal.voteReached, Proposal.vetoed,
+    Proposal.totalVotes]
+  try k_solve
 
 /-- source `quorum_reached` decides the model's `quorumReached`:
     `quorum · 10000 ≥ minimum_quorum · total_quorum`; never aborts -/
 theorem quorum_reached_eq (p : Proposal) (id : Nat) :
     KGov.quorum_reached p.minQuorum p.totalQuorum p.quorum id = some (decide p.quorumReached) := by
   have hF : FULL = 10000 := rfl
-  simp only [KGov.quorum_reached, Proposal.quorumReached, hF, ge_iff_le, Option.pure_def]
+  k_defs [KGov.quorum_reached, Proposal.quorumReached, hF]
+  try k_solve
 
 /-- source `get_proposal_status` of an existing proposal, fed with the source's own three
     predicates, returns the variant of the model's `statusAt` -/
 theorem get_proposal_status_eq (p : Proposal) (b id : Nat) :
     KGov.get_proposal_status b true p.start p.delay p.period id (decide p.quorumReached)
         (decide p.vetoed) (decide p.voteReached) = some ((p.statusAt b).tag, 0) := by
-  by_cases h1 : b < p.start + p.delay
-  · have hs : p.statusAt b = .pending := by simp only [Proposal.statusAt, if_pos h1]
-    rw [hs]
-    simp only [KGov.get_proposal_status, not_true_eq_false, if_false, if_pos h1, Option.pure_def, Status.tag]
-  · by_cases h2 : b < p.start + p.delay + p.period
-    · have hs : p.statusAt b = .active := by simp only [Proposal.statusAt, if_neg h1, if_pos h2]
-      have h2' : b ≥ p.start + p.delay ∧ b < p.start + p.delay + p.period := ⟨by omega, h2⟩
-      rw [hs]
-      simp only [KGov.get_proposal_status, not_true_eq_false, if_false, if_neg h1, if_pos h2', Option.pure_def,
-        Status.tag]
-    · have h2' : ¬ (b ≥ p.start + p.delay ∧ b < p.start + p.delay + p.period) := fun c => h2 c.2
-      by_cases hq : p.quorumReached ∧ p.voteReached
-      · have hs : p.statusAt b = .succeeded := by
-          simp only [Proposal.statusAt, if_neg h1, if_neg h2, if_pos hq]
-        have hq' : decide p.quorumReached = true ∧ decide p.voteReached = true := by
-          simp only [decide_eq_true_eq]; exact hq
-        rw [hs]
-        simp only [KGov.get_proposal_status, not_true_eq_false, if_false, if_neg h1, if_neg h2', if_pos hq',
-          Option.pure_def, Status.tag]
-      · have hq' : ¬ (decide p.quorumReached = true ∧ decide p.voteReached = true) := by
-          simp only [decide_eq_true_eq]; exact hq
-        by_cases hv : p.vetoed
-        · have hs : p.statusAt b = .vetoed := by
-            simp only [Proposal.statusAt, if_neg h1, if_neg h2, if_neg hq, if_pos hv]
-          have hv' : decide p.vetoed = true := by simp only [decide_eq_true_eq]; exact hv
-          rw [hs]
-          simp only [KGov.get_proposal_status, not_true_eq_false, if_false, if_neg h1, if_neg h2', if_neg hq',
-            if_pos hv', Option.pure_def, Status.tag]
-        · have hs : p.statusAt b = .defeated := by
-            simp only [Proposal.statusAt, if_neg h1, if_neg h2, if_neg hq, if_neg hv]
-          have hv' : ¬ decide p.vetoed = true := by simp only [decide_eq_true_eq]; exact hv
-          rw [hs]
-          simp only [KGov.get_proposal_status, not_true_eq_false, if_false, if_neg h1, if_neg h2', if_neg hq',
-            if_neg hv', Option.pure_def, Status.tag]
+  k_defs [KGov.get_proposal_status, Proposal.statusAt]
+  k_solve
 
 /-- a proposal that does not exist (invalid id, or cleared by `cancel`) has status `None`,
     whatever the other inputs -/
 theorem get_proposal_status_missing (b st dl pd id : Nat) (q v r : Bool) :
     KGov.get_proposal_status b false st dl pd id q v r = some (Status.none.tag, 0) := by
-  have hf : ¬ (false = true) := by simp
-  simp only [KGov.get_proposal_status, if_pos hf, Option.pure_def, Status.tag]
+  k_defs [KGov.get_proposal_status]
+  try k_solve
 
 /-- on a model state: for a stored, not cleared proposal the view `getProposalStatus` (source
     status function composed with the source predicates on the stored votes) is the model's
@@ -127,6 +89,147 @@ theorem get_proposal_status_state_missing (s : St) (id : Nat)
   rw [hs]
   exact get_proposal_status_missing _ _ _ _ _ _ _ _
 
+/-! ### vote: voting power, tally update (lib.rs `vote`) -/
+
+/-- source `smoothing_function` is the integer square root; `vote` applies it to the voter's energy
+    (the model's `power := Nat.sqrt e`) -/
+theorem vote_power_eq (e : Nat) : KGov.vote_power e = some (Nat.sqrt e) := by
+  k_defs [KGov.vote_power, KGov.smoothing_function]
+  try k_solve
+
+/-- the four tally updates of `vote`: the chosen counter grows by the voting power, the quorum by
+    the voter's energy — together they ARE the model's `Proposal.addVote`.
+    Result orders (alphabetical): up `(quorum, up)`, down `(down, quorum)`, veto `(veto, quorum)`,
+    abstain `(abstain, quorum)` -/
+theorem vote_up_eq (p : Proposal) (power e : Nat) :
+    KGov.vote_up p.quorum p.up e power =
+      some ((p.addVote .up power e).quorum, (p.addVote .up power e).up) := by
+  k_defs [KGov.vote_up, Proposal.addVote]
+  try k_solve
+
+theorem vote_down_eq (p : Proposal) (power e : Nat) :
+    KGov.vote_down p.down p.quorum e power =
+      some ((p.addVote .down power e).down, (p.addVote .down power e).quorum) := by
+  k_defs [KGov.vote_down, Proposal.addVote]
+  try k_solve
+
+theorem vote_down_veto_eq (p : Proposal) (power e : Nat) :
+    KGov.vote_down_veto p.veto p.quorum e power =
+      some ((p.addVote .veto power e).veto, (p.addVote .veto power e).quorum) := by
+  k_defs [KGov.vote_down_veto, Proposal.addVote]
+  try k_solve
+
+theorem vote_abstain_eq (p : Proposal) (power e : Nat) :
+    KGov.vote_abstain p.abstain p.quorum e power =
+      some ((p.addVote .abstain power e).abstain, (p.addVote .abstain power e).quorum) := by
+  k_defs [KGov.vote_abstain, Proposal.addVote]
+  try k_solve
+
+/-- `addVote` touches only the chosen counter and the quorum -/
+theorem addVote_frame (p : Proposal) (v : Vote) (power e : Nat) :
+    (p.addVote v power e).quorum = p.quorum + e ∧
+    (p.addVote v power e).up + (p.addVote v power e).down + (p.addVote v power e).veto +
+      (p.addVote v power e).abstain = p.up + p.down + p.veto + p.abstain + power := by
+  cases v <;> simp [Proposal.addVote] <;> omega
+
+/-- a successful model `vote` reports exactly the source's voting power and counts the voter's whole
+    energy towards the quorum -/
+theorem vote_runs_source {s s' : St} {c id : Nat} {v : Vote} {o : Out}
+    (h : vote s c id v = some (s', o)) :
+    KGov.vote_power (s.energy c) = some o.v1 ∧ o.v2 = s.energy c := by
+  obtain ⟨p, _, _, _, _, _, _, _, rfl, _⟩ := vote_spec h
+  exact ⟨vote_power_eq _, rfl⟩
+
+/-! ### withdrawDeposit after a veto: refund / burn split -/
+
+/-- source: refund `⌊pct · fee / 10000⌋`, burn the rest (checked subtraction: aborts for a
+    percentage above 100 % whose refund exceeds the fee).  Result (refund_amount, remaining_fee) -/
+theorem withdraw_veto_split_eq (fee pct : Nat) :
+    KGov.withdraw_veto_split fee pct =
+      if fee < pct * fee / FULL then none else some (pct * fee / FULL, fee - pct * fee / FULL) := by
+  have hF : FULL = 10000 := rfl
+  k_defs [KGov.withdraw_veto_split, hF]
+  k_solve
+
+/-- refund + burn = the escrowed fee (nothing is lost or created by the split) -/
+theorem withdraw_veto_split_sum (fee pct r b : Nat)
+    (h : KGov.withdraw_veto_split fee pct = some (r, b)) : r + b = fee := by
+  rw [withdraw_veto_split_eq] at h
+  split at h
+  · cases h
+  · simp only [Option.some.injEq, Prod.mk.injEq] at h
+    omega
+
+/-- a successful model `withdraw` of a vetoed proposal pays and burns exactly what the source computes -/
+theorem withdraw_vetoed_runs_source {s s' : St} {c id : Nat} {o : Out}
+    (h : withdraw s c id = some (s', o)) (hv : s.status id = .vetoed) :
+    ∃ p, s.get? id = some p ∧ KGov.withdraw_veto_split p.fee p.wpct = some (o.v1, o.v2) := by
+  obtain ⟨p, _, hg, _, hc⟩ := withdraw_spec h
+  refine ⟨p, hg, ?_⟩
+  rcases hc with ⟨hst, _⟩ | ⟨_, hle, _, _, rfl, _⟩
+  · rcases hst with hst | hst <;> rw [hv] at hst <;> cases hst
+  · rw [withdraw_veto_split_eq, if_neg (by omega)]
+
+/-! ### propose: the two guards on energy and fee -/
+
+/-- `propose` demands at least the configured minimum energy -/
+theorem propose_energy_check_eq (e minE : Nat) :
+    KGov.propose_energy_check e minE = if minE ≤ e then some () else none := by
+  k_defs [KGov.propose_energy_check]
+  k_solve
+
+/-- `propose` demands the fee token and EXACTLY the configured fee -/
+theorem propose_fee_check_eq (feeTok minFee amount tok : Nat) :
+    KGov.propose_fee_check feeTok minFee amount tok =
+      if feeTok = tok ∧ minFee = amount then some () else none := by
+  k_defs [KGov.propose_fee_check]
+  k_solve
+
+/-- a successful model `propose` passes both source guards -/
+theorem propose_runs_source {s s' : St} {c fee : Nat} {o : Out} (h : propose s c fee = some (s', o))
+    (tok : Nat) :
+    KGov.propose_energy_check (s.energy c) s.minEnergy = some () ∧
+    KGov.propose_fee_check tok s.minFee fee tok = some () := by
+  obtain ⟨_, he, _, _, hf, _⟩ := propose_spec h
+  rw [propose_energy_check_eq, propose_fee_check_eq, if_pos he, if_pos ⟨rfl, hf⟩]
+  exact ⟨rfl, rfl⟩
+
+/-! ### the range guards of the `change*` endpoints (configurable.rs) = the model's `cfg` -/
+
+theorem try_change_min_fee_eq (s : St) (x : Nat) :
+    KGov.try_change_min_fee_for_propose x = (cfg s (.minFee x)).map (·.minFee) := by
+  have h1 : MIN_FEE = 2000000 * 1000000000000000000 := rfl
+  have h2 : MAX_FEE = 200000000000 * 1000000000000000000 := rfl
+  k_defs [KGov.try_change_min_fee_for_propose, cfg, h1, h2]
+  k_solve
+
+theorem try_change_quorum_eq (s : St) (x : Nat) :
+    KGov.try_change_quorum_percentage x = (cfg s (.quorum x)).map (·.quorumPct) := by
+  have h1 : MIN_QUORUM = 1000 := rfl
+  have h2 : MAX_QUORUM = 6000 := rfl
+  k_defs [KGov.try_change_quorum_percentage, cfg, h1, h2]
+  k_solve
+
+theorem try_change_voting_delay_eq (s : St) (x : Nat) :
+    KGov.try_change_voting_delay_in_blocks x = (cfg s (.delay x)).map (·.delay) := by
+  have h1 : MIN_VOTING_DELAY = 1 := rfl
+  have h2 : MAX_VOTING_DELAY = 100800 := rfl
+  k_defs [KGov.try_change_voting_delay_in_blocks, cfg, h1, h2]
+  k_solve
+
+theorem try_change_voting_period_eq (s : St) (x : Nat) :
+    KGov.try_change_voting_period_in_blocks x = (cfg s (.period x)).map (·.period) := by
+  have h1 : MIN_VOTING_PERIOD = 14400 := rfl
+  have h2 : MAX_VOTING_PERIOD = 201600 := rfl
+  k_defs [KGov.try_change_voting_period_in_blocks, cfg, h1, h2]
+  k_solve
+
+theorem try_change_withdraw_percentage_eq (s : St) (x : Nat) :
+    KGov.try_change_withdraw_percentage_defeated x = (cfg s (.wpct x)).map (·.wpct) := by
+  have h1 : FULL = 10000 := rfl
+  k_defs [KGov.try_change_withdraw_percentage_defeated, cfg, h1]
+  k_solve
+
 /-- the strict thresholds: exactly a third of veto votes does not veto, exactly half of up votes
     does not pass -/
 example : KGov.vote_down_with_veto 0 1 2 7 0 = some false := by decide
@@ -136,5 +239,9 @@ example : KGov.vote_reached 0 0 2 7 3 = some true := by decide
 example : KGov.quorum_reached 5000 100 50 7 = some true := by decide
 example : KGov.quorum_reached 5000 101 50 7 = some false := by decide
 example : KGov.get_proposal_status 50 true 10 5 20 1 true false true = some (5, 0) := by decide
+example : KGov.withdraw_veto_split 1000 2500 = some (250, 750) := by decide
+example : KGov.withdraw_veto_split 1000 10010 = none := by decide
+example : KGov.try_change_quorum_percentage 6000 = none := by decide
+example : KGov.try_change_quorum_percentage 1000 = some 1000 := by decide
 
 end Mx.KGov
